@@ -195,6 +195,9 @@ func GenHostile(prop string, seed uint64, thorough bool) *Scenario {
 				}
 			}
 		case 2: // upgrade candidate with mismatched revision / odd packets
+			if g.p(0.4) {
+				x.WriteDelayMs = g.pick(1, 3) // (over a slow link: the answers to two probes can be on their way at once)
+			}
 			ops = append(ops, hs)
 			ops = append(ops, RawOp{Op: "http", Method: "GET", Query: base, UseSid: true, Async: true})
 			weio := eio
